@@ -11,6 +11,18 @@ CLAIMS = {
   text="Effect/alias analysis of the five API closures x 4 interpreter versions: every mutation site is enumerated with the abstract objects it may touch; none may alias an API argument (incl. elements of shallow copies), module-level or class-level state; returned JSON containers are all allocated during the call. Decides the no-input-mutation / no-shared-state clauses for every input (they are shape properties of the code); repeatability follows from them and is not executed.",
   technique="context-sensitive points-to / effect analysis (abstract interpretation over ast)", ref="5 C12"),
 }
+CLAIMS.update({
+ "C05": dict(text="Decides three necessary structural clauses for every input: normalize is the identity on every public field (each arm keyword is a private field or f=normalize(x.f)); the encoder reads every public field outside error messages in all four interpreter versions; the docstring-slot guards agree with CPython's __doc__ rule on the full finite guard domain. Execution equivalence of the two code objects is not decided.",
+   technique="type-graph + ast rule checking; finite-domain evaluation of guards; attribute-read sets from abstract interpretation", ref="5 C05"),
+ "C06": dict(text="Decides that normalize is a projection onto 'all private fields at their declared default' (every private field reachable in the type graph reset, every field reaching one recursed into, tuples element-wise), hence idempotent and independent of its input's artefacts, and that index assignment without override depends on first use only. Canonicity across table permutations additionally needs the decoder to be right on the variant (C02).",
+   technique="type-graph exhaustiveness check of the normalize dispatch (ast)", ref="5 C06"),
+ "C08": dict(text="Decides the structural conditions of being an immutable hashable value: frozen data classes with deeply immutable field types; constructors in decode / JSON-load / normalize closures store only immutable shapes; hand-written __eq__ and __hash__ use the same key and cover all fields; constant key covers every leaf type, type-/sign-/NaN-exact and recursive. The relational laws follow from equality-by-key and are not executed.",
+   technique="type graph + abstract interpretation of constructor arguments + key-expression comparison (ast)", ref="5 C08"),
+ "C09": dict(text="Decides that the decoder's first-use rank depends on discovery state and mirrors the encoder's next-index rule, that an override is reported iff rank != index (finite-domain evaluation), that seeds agree on both sides, and that additional args are exactly the never-met indices of all four tables. The 'or removing the override would change the re-encoding' disjunct is not decided.",
+   technique="ast pattern + def/use of object state; finite-domain evaluation; provenance from abstract interpretation", ref="5 C09"),
+ "C14": dict(text="Decides traversal exhaustiveness: for every type-graph route from CodeData to a nested CodeData, __iter__ yields the object at its end under a CodeData guard; all_code_data yields self first and recurses over iter(self); nested code constants are decoded by CodeData.from_code.",
+   technique="type-graph route enumeration vs. abstract interpretation of the generator", ref="5 C14"),
+})
 NA = {}
 props = [json.loads(l) for l in open(os.path.join(HERE, "properties.jsonl"))]
 checks, na = [], []
